@@ -2,7 +2,7 @@
 
 use crate::common::*;
 use bytes::BytesMut;
-use desert::{BinaryInput, BinaryOutput, DeserializationContext, OwnedInput, SliceInput};
+use desert::{BinaryInput, BinaryOutput, BinarySerializer, DeserializationContext, OwnedInput, SliceInput};
 use flate2::read::DeflateDecoder;
 use flate2::Compression;
 use monitors::json::J;
@@ -10,6 +10,101 @@ use monitors::{guarded, Outcome};
 use refmodel::enc::vu_bytes;
 use refmodel::{hex, Rng};
 use std::io::Read;
+
+// compressed blocks written by a user codec through a context: as field of a version-0 record (straight to the sink), as
+// field of an evolved record (into a chunk buffer on the way out, from inside an input region on the way back), and
+// through a size-calculating context
+mod blob_types {
+    use desert::{BinaryCodec, BinaryDeserializer, BinaryInput, BinaryOutput, BinarySerializer, DeserializationContext, SerializationContext};
+    use flate2::Compression;
+
+    #[derive(Debug, Clone, PartialEq)]
+    pub struct Blob(pub Vec<u8>, pub u32);
+
+    impl BinarySerializer for Blob {
+        fn serialize<O: BinaryOutput>(&self, c: &mut SerializationContext<O>) -> desert::Result<()> {
+            c.write_compressed(&self.0, Compression::new(self.1))
+        }
+    }
+    impl BinaryDeserializer for Blob {
+        fn deserialize(c: &mut DeserializationContext<'_>) -> desert::Result<Self> {
+            Ok(Blob(c.read_compressed()?, 0))
+        }
+    }
+
+    #[derive(Debug, Clone, PartialEq, BinaryCodec)]
+    pub struct BlobV0 {
+        pub a: u8,
+        pub b: Blob,
+        pub c: String,
+    }
+
+    #[derive(Debug, Clone, PartialEq, BinaryCodec)]
+    #[evolution(FieldAdded("b", Blob(Vec::new(), 0)))]
+    pub struct BlobEvolved {
+        pub a: u8,
+        pub b: Blob,
+        pub c: String,
+    }
+}
+
+/// the frame must be the same bytes wherever the block is written, and the size calculator must count exactly them
+fn through_contexts(acc: &mut Acc, data: &[u8], level: u32, frame: &[u8]) {
+    use blob_types::*;
+    use desert::{SerializationContext, SizeCalculator};
+    let fail = |acc: &mut Acc, what: &str, detail: String| {
+        acc.violation(
+            format!("C16|context|{what}"),
+            J::obj().with("check", J::s("C16")).with("mode", J::s("content")).with("size", J::u(data.len() as u64)).with("level", J::u(level)).with("what", J::s(what)).with("detail", J::s(detail)),
+        );
+    };
+    let r = guarded(
+        || -> Result<(), String> {
+            // the primitive on the size calculator
+            let mut sc = SizeCalculator::new();
+            sc.write_compressed(data, Compression::new(level)).map_err(|e| e.to_string())?;
+            if sc.size() != frame.len() {
+                return Err(format!("SizeCalculator::write_compressed counted {} bytes, the frame has {}", sc.size(), frame.len()));
+            }
+            let blob = Blob(data.to_vec(), level);
+            let v0 = BlobV0 { a: 7, b: blob.clone(), c: "tail".into() };
+            let ev = BlobEvolved { a: 7, b: blob.clone(), c: "tail".into() };
+            let b0 = desert::serialize_to_byte_vec(&v0).map_err(|e| e.to_string())?;
+            let b1 = desert::serialize_to_byte_vec(&ev).map_err(|e| e.to_string())?;
+            // layout: the frame sits between the neighbouring fields / in its own chunk, byte for byte
+            let exp0: Vec<u8> = [&[0u8, 7][..], frame, &[8u8, b't', b'a', b'i', b'l'][..]].concat();
+            if b0 != exp0 {
+                return Err(format!("version-0 record: {} expected {}", short(&b0), short(&exp0)));
+            }
+            let c0 = [7u8, 8, b't', b'a', b'i', b'l'];
+            let exp1: Vec<u8> = [&[1u8][..], &refmodel::enc::vi_bytes(c0.len() as i32)[..], &refmodel::enc::vi_bytes(frame.len() as i32)[..], &c0[..], frame].concat();
+            if b1 != exp1 {
+                return Err(format!("evolved record: {} expected {}", short(&b1), short(&exp1)));
+            }
+            for (name, bytes) in [("v0", &b0), ("evolved", &b1)] {
+                let mut ctx = SerializationContext::new(SizeCalculator::new());
+                if name == "v0" { v0.serialize(&mut ctx) } else { ev.serialize(&mut ctx) }.map_err(|e| e.to_string())?;
+                let n = ctx.into_output().size();
+                if n != bytes.len() {
+                    return Err(format!("size calculator through a context ({name} record): {n} vs {} bytes written", bytes.len()));
+                }
+            }
+            let back0: BlobV0 = desert::deserialize(&b0).map_err(|e| format!("v0 decode: {e}"))?;
+            let back1: BlobEvolved = desert::deserialize(&b1).map_err(|e| format!("evolved decode: {e}"))?;
+            if back0.b.0 != data || back0.c != "tail" || back1.b.0 != data || back1.c != "tail" || back1.a != 7 {
+                return Err("content or neighbouring fields differ after the round trip through records".into());
+            }
+            Ok(())
+        },
+        |_| None,
+    );
+    match r {
+        Outcome::Done(Ok(())) => acc.count("frames_identical_through_contexts_and_size_exact"),
+        Outcome::Done(Err(w)) => fail(acc, "mismatch", w),
+        Outcome::Panicked(p) => fail(acc, "panic", monitors::normalise_site(&p.site)),
+        Outcome::StepBudget(_) => {}
+    }
+}
 
 fn content(rng: &mut Rng, kind: u64, size: usize) -> Vec<u8> {
     match kind {
@@ -180,6 +275,9 @@ pub fn c16(ctx: &mut Ctx, acc: &mut Acc) -> i32 {
                     // reading a valid frame must not reserve out of proportion either
                     let alloc_ok = sa.max_single <= (64 * 1024).max(2 * data.len());
                     acc.max("max_single_allocation_over_twice_produced_permille", if data.len() > 32768 { (sa.max_single as u64 * 1000) / (2 * data.len() as u64) } else { 0 });
+                    if *size <= (1 << 20) {
+                        through_contexts(acc, &data, level, &frame);
+                    }
                     if ok && alloc_ok {
                         acc.count("frames_round_trip");
                         acc.count(&format!("level:{level}"));
